@@ -127,3 +127,30 @@ Theorem C11_process_exit_101_iff_panic : forall a ms tb cd,
     else vr_panic (model_run (main_case a p ms tb cd)) = true.
 Proof. exact main_exit_101_iff_panic. Qed.
 Print Assumptions C11_process_exit_101_iff_panic.
+
+(* Status 2 comes only from a rejected command line (the run itself ends 0 or 1 by C11_exit_zero_or_one). *)
+Theorem C11_exit_2_only_usage : forall a fs tb cd,
+  main_exit (main_model a fs tb cd) = 2 ->
+  plan_of a = Err E_USAGE \/ (exists v, main_model a fs tb cd = MRun v /\ exit_code v = 2).
+Proof. exact exit_2_iff_usage. Qed.
+Print Assumptions C11_exit_2_only_usage.
+
+(* Through main: when every file parsed, the report is exactly what the selected validators return on the collected context. *)
+Theorem C11_process_report_is_validator_union : forall a p ms tb cd,
+  plan_of a = Ok p -> ca_list a = false ->
+  let cr := model_context (main_case a p ms tb cd) in
+  cr_panic cr = false -> cr_errs cr = [] ->
+  main_model a ms tb cd =
+  MRun (run_validators (oracles_of tb) (cr_ctx cr)
+          (detected_validators (pl_enabled p) (pl_disabled p) (cr_ctx cr))).
+Proof. exact main_run_diags. Qed.
+Print Assumptions C11_process_report_is_validator_union.
+
+(* Through main: when some file failed (error or panic) no diagnostics are reported at all - never a partial report that looks clean. *)
+Theorem C11_process_no_partial_report : forall a p ms tb cd,
+  plan_of a = Ok p -> ca_list a = false ->
+  let cr := model_context (main_case a p ms tb cd) in
+  cr_panic cr = true \/ cr_errs cr <> [] ->
+  exists v, main_model a ms tb cd = MRun v /\ vr_diags v = [].
+Proof. exact main_run_no_diags_on_failure. Qed.
+Print Assumptions C11_process_no_partial_report.
